@@ -15,17 +15,18 @@ def run(ctx):
     b = build(ctx)
     ctx.run_shards(b, ["--mode", "deep"], nshards=4, label="xml deep")
     ctx.run_shards(b, ["--mode", "round", "--valtok", str(p["valtok"]), "--texttok", str(p["texttok"])], label="xml roundtrip")
+    ctx.run_shards(b, ["--mode", "bytes"], nshards=1, label="xml bytes")
     ctx.run_shards(b, ["--mode", "sizes", "--len", str(p["sizes"])], label="xml sizes")
     ctx.run_shards(b, ["--mode", "comments", "--valtok", "1", "--texttok", "1"], label="xml comments")
     ctx.run_shards(b, ["--mode", "parse", "--len", str(p["parse_len"])], label="xml parse")
     handles.run_xml(ctx)
     c = ctx.counters
-    ev = sum(c.get(k, 0) for k in ("parse_inputs", "deep_inputs", "roundtrip_trees", "comment_documents", "size_documents")) + c.get("transitions", 0)
+    ev = sum(c.get(k, 0) for k in ("parse_inputs", "deep_inputs", "roundtrip_trees", "comment_documents", "size_documents", "byte_documents")) + c.get("transitions", 0)
     cov = {"evaluations": int(ev), "distinct_nontrivial": int(c.get("distinct_nontrivial", 0)),
            "rule": "parse: every string of <= %d tokens over a 27-token alphabet (< > / = \" ' ? ! - & ; # a b SP LF CR 1 x <!-- --> <? ?> </ /> &amp; &#65;) "
                    "through both entry points, exactly sized heap copy under ASan, time and memory watchdog, error line/column against the line structure; "
                    "nesting 1..1000; round trip: element trees with <= 3 elements, <= 2 attributes, values of <= %d tokens over {a \" ' & < > LF CR SP e-acute "
-                   "&#65; &amp;}, non-blank non-adjacent text of <= %d tokens over {a SP / = \" & < LF}; sizes: attribute values and texts a^{0,1} c^n z^{0,1,3} for every "
+                   "&#65; &amp;}, non-blank non-adjacent text of <= %d tokens over {a SP / = \" & < LF}; bytes: every 7-bit character XML allows, alone / between letters / doubled, as attribute value and as text; sizes: attribute values and texts a^{0,1} c^n z^{0,1,3} for every "
                    "escaped character c and n = 0..%d (every reallocation point of the escaper); comments: every tree serialised by the harness with "
                    "one of three comment forms at every token boundary (white-space separated inside tags) and processing instructions with a line break "
                    "before the root; plus the Xml::Variant handle histories (copy, assignment, toElement() on shared values)"
